@@ -67,10 +67,55 @@ def model_session(radi, src, c, dt, dur, K, recs, direct=False, dirfac=None, rdi
     return tok
 
 
-def compare_stages(radi, impl, out, K, recs, dur, dt):
-    """out: list of (name, tokens) from the driver, in the order of model_session"""
+def scene_ties(radi, src, recs, eps=1e-9):
+    """near-ties of the nearest-direction lookups of a scene: (set of (i,j) with an
+    out-index tie, True if any incoming/source/receiver lookup has a tie).  A tie is decided
+    by the last bit of the normalised direction, where numpy's BLAS norm and the model's
+    sqrt-of-sum may legitimately differ, so such lookups are 'near-decision' inputs."""
+    c = radi.patches_center
+    wall = radi._patch_to_wall_ids
+    ins = np.array([s.cartesian for s in radi._brdf_incoming_directions])
+    outs = np.array([s.cartesian for s in radi._brdf_outgoing_directions])
+    if outs.shape[1] < 2 and ins.shape[1] < 2:
+        return set(), False
+
+    def tie(dirs, v):
+        if dirs.shape[0] < 2:
+            return False
+        d = np.sort(np.sum((dirs - v / np.linalg.norm(v)) ** 2, axis=-1))
+        return bool(d[1] - d[0] < eps)
+    V = radi.visibility_matrix
+    n = radi.n_patches
+    out_ties = set()
+    other = False
+    for i in range(n):
+        for j in range(n):
+            if i != j and (V[i, j] or V[j, i]):
+                if tie(outs[wall[i]], c[j] - c[i]):
+                    out_ties.add((i, j))
+                if tie(ins[wall[j]], c[i] - c[j]):
+                    other = True
+    for k in range(n):
+        if src is not None and tie(ins[wall[k]], np.asarray(src) - c[k]):
+            other = True
+        for r in recs:
+            if tie(outs[wall[k]], np.asarray(r) - c[k]):
+                other = True
+    return out_ties, other
+
+
+def compare_stages(radi, impl, out, K, recs, dur, dt, src=None, directional=None):
+    """out: list of (name, tokens) from the driver, in the order of model_session.
+    directional: True if some BRDF table depends on the direction indices (then a lookup tie
+    makes the whole case a near-decision input); None = decide from the tables."""
     mism = []
     maxulp = 0.0
+    out_ties, other_ties = scene_ties(radi, src, recs)
+    if directional is None:
+        tb = np.array(radi._brdf)
+        directional = bool(np.any(tb != tb[:, :1, :1, :]))
+    if (out_ties or other_ties) and directional:
+        return [{"rejected": True}], 0.0
     np_, nb = radi.n_patches, radi.n_bins
     nd = np.array([s.cartesian for s in radi._brdf_outgoing_directions]).shape[1]
     N = int(dur / dt)
@@ -96,6 +141,11 @@ def compare_stages(radi, impl, out, K, recs, dur, dt):
         checks.append(("patchwise[r%d]" % ri, impl["patchwise"][ri], floats(nxt("q_patchwise"), (np_, nb, N)), False))
         checks.append(("mono[r%d]" % ri, impl["mono"][ri], floats(nxt("q_mono"), (nb, N)), False))
     for name, a, b, exact in checks:
+        if name == "patch_2_brdf_outgoing_index" and out_ties:
+            a = np.array(a).copy()
+            b = np.array(b).copy()
+            for (i, j) in out_ties:
+                b[i, j] = a[i, j]
         m = cmp_exact(a, b, name) if exact else cmp_float(a, b, what=name)
         if m:
             mism.append({"stage": name, "what": m})
